@@ -4,7 +4,8 @@
 //	                                  descriptor, the real HTTP parser, Upgrader.Upgrade inside the request's job, the
 //	                                  conn's real job queue (Conn.Execute/MustExecute) — with GATED callbacks: every
 //	                                  open/message/close handler blocks until the harness releases it.
-//	  O upgrade | go | recv | flip | cb | Q   R log=<completed callbacks> run=<callback currently held or ->
+//	  O upgrade | go | recv | flip | cb | cbpanic | Q   R log=<completed callbacks> run=<callback currently held or ->
+//	  (`cbpanic`: the held callback is released and, if it is a message handler, panics)
 //	  (`C … cb holdexec=1`: the executor holds the upgrade request's closure until `go`, so `flip` can overtake it)
 //
 //	C <id> wq bound=<n> maxframe=<bytes> client=<0|1>
@@ -107,12 +108,18 @@ func genCB(g *lp.Gen, id int) {
 		g.P("O upgrade")
 	}
 	n := 3 + g.Intn(12)
+	// one case in eight: some message handlers panic (nbio recovers a panicking job and goes on with the next one)
+	panicky := g.Chance(1, 8)
 	for k := 0; k < n; k++ {
 		switch r := g.Intn(10); {
 		case r < 4:
 			g.P("O recv")
 		case r < 8:
-			g.P("O cb")
+			if panicky && g.Chance(1, 2) {
+				g.P("O cbpanic")
+			} else {
+				g.P("O cb")
+			}
 		case r < 9 && !flipped:
 			g.P("O flip")
 			flipped = true
@@ -913,8 +920,9 @@ type cbLog struct {
 	starts  int
 	ends    int
 	overlap bool
-	gate    chan struct{}
+	gate    chan bool // the value released with: true = the handler panics after it has been logged
 	closes  int
+	panics  int
 }
 
 func (l *cbLog) enter(name string) {
@@ -928,12 +936,19 @@ func (l *cbLog) enter(name string) {
 		l.closes++
 	}
 	l.mu.Unlock()
-	<-l.gate
+	p := <-l.gate
+	p = p && strings.HasPrefix(name, "m") // only message handlers panic (nbio recovers a panicking job by design)
 	l.mu.Lock()
 	l.done = append(l.done, name)
 	l.running = ""
 	l.ends++
+	if p {
+		l.panics++
+	}
 	l.mu.Unlock()
+	if p {
+		panic("hwscb: message handler panics (part of the case)")
+	}
 }
 
 func (l *cbLog) line() string {
@@ -1002,7 +1017,7 @@ func checkLog(e *lp.Exec, l *cbLog, connEnded bool, what string) {
 
 func runCB(e *lp.Exec, head string, ops []string) {
 	vsys.VirtualAll = true
-	l := &cbLog{gate: make(chan struct{}, 1024)}
+	l := &cbLog{gate: make(chan bool, 1024)}
 	var hold, holdRel chan struct{}
 	if field(strings.Fields(head), "holdexec") == "1" {
 		hold = make(chan struct{})
@@ -1067,6 +1082,8 @@ func runCB(e *lp.Exec, head string, ops []string) {
 	}
 	seq := 0
 	flipped := false
+	upgraded := false
+	var fedNames []string // messages put on the wire of the upgraded, open connection: each is owed a callback
 	shape := "cb"
 	for _, ln := range ops {
 		ow := strings.Fields(ln)
@@ -1074,6 +1091,7 @@ func runCB(e *lp.Exec, head string, ops []string) {
 		case ow[0] == "Q":
 		case ow[1] == "upgrade":
 			feed([]byte(upgradeReq))
+			upgraded = true
 		case ow[1] == "go":
 			if holdRel != nil {
 				close(holdRel)
@@ -1082,6 +1100,9 @@ func runCB(e *lp.Exec, head string, ops []string) {
 		case ow[1] == "recv":
 			if !flipped {
 				feed(maskedFrame(1, []byte(fmt.Sprintf("m%d", seq))))
+				if upgraded && !nbc.VerifState().Closed {
+					fedNames = append(fedNames, fmt.Sprintf("m%d", seq))
+				}
 			}
 			seq++
 		case ow[1] == "flip":
@@ -1094,13 +1115,13 @@ func runCB(e *lp.Exec, head string, ops []string) {
 				defer l.mu.Unlock()
 				return nbc.ExecuteLen() > before || l.closes > 0
 			}, time.Second)
-		case ow[1] == "cb":
+		case ow[1] == "cb" || ow[1] == "cbpanic":
 			l.mu.Lock()
 			held := l.running != ""
 			ends := l.ends
 			l.mu.Unlock()
 			if held {
-				l.gate <- struct{}{}
+				l.gate <- ow[1] == "cbpanic"
 				waitFor(func() bool { l.mu.Lock(); defer l.mu.Unlock(); return l.ends > ends }, time.Second)
 			}
 		}
@@ -1117,9 +1138,50 @@ func runCB(e *lp.Exec, head string, ops []string) {
 		close(holdRel)
 	}
 	for i := 0; i < 64; i++ {
-		l.gate <- struct{}{}
+		l.gate <- false
 	}
 	_ = nbc.Close()
+	// ---- with every gate open and the connection ended, what is owed must arrive (a handler panic, which nbio
+	// recovers, must not stop the deliveries): every message that was put on the wire of the open connection gets its
+	// callback, then the close callback runs, once
+	if holdRel == nil && hold == nil {
+		l.mu.Lock()
+		opened := len(l.done) > 0 && l.done[0] == "open" || l.running == "open"
+		l.mu.Unlock()
+		if opened {
+			want := len(fedNames)
+			waitFor(func() bool {
+				l.mu.Lock()
+				defer l.mu.Unlock()
+				n := 0
+				for _, d := range l.done {
+					if strings.HasPrefix(d, "m") {
+						n++
+					}
+				}
+				return n >= want && l.closes > 0 && l.running == ""
+			}, 2*time.Second)
+			l.mu.Lock()
+			got := map[string]bool{}
+			for _, d := range l.done {
+				got[d] = true
+			}
+			var missing []string
+			for _, n := range fedNames {
+				if !got[n] {
+					missing = append(missing, n)
+				}
+			}
+			closes, panics, doneLog := l.closes, l.panics, append([]string(nil), l.done...)
+			l.mu.Unlock()
+			if len(missing) > 0 {
+				e.Oracle("c14-callback-order", "poller-driven, gated: message(s) %v never handed to the message callback although the connection was open when they arrived (handler panics so far: %d); log %v", missing, panics, doneLog)
+			}
+			if closes == 0 {
+				e.Oracle("c14-close-once", "poller-driven, gated: the connection ended but the close callback never ran (handler panics so far: %d); log %v", panics, doneLog)
+			}
+		}
+	}
 	done := make(chan struct{})
 	go func() { eng.Stop(); close(done) }()
 	select {
